@@ -124,6 +124,17 @@ CLAIMED["C08"] = (
     "DESIGN.md §3 C08",
     "One known finding (neg of 2^127 keeps the sign positive) is pinned by an existing snapshot and therefore listed, not repaired.")
 
+CLAIMED["C16"] = (
+    "structural output-filter rule over MIR (char match: listed arms cover < > & ' with clean constants, default arm copies) for the HTML-safety clause of tojson; round trip / JSON validity not decided",
+    "Static rule check of ONE clause of the property: tojson's only success value is from_safe_string(buf) where buf "
+    "is filled exclusively by the per-character match (default arm copies the character; the listed arms cover "
+    "< > & ' and push constants free of them), the filtering closure is the last step of the returned Result and "
+    "both formatter branches flow into it.  This decides 'tojson output contains none of < > & '' for every value. "
+    "The serde round trip and 'valid JSON that parses back to an equal value' quantify over runtime values and are "
+    "NOT decided or claimed.",
+    "DESIGN.md §3 C16",
+    "Partial claim (HTML-safety of tojson only).  serde_json is trusted to produce the string that is filtered.")
+
 NOT_APPLICABLE = {
 }
 
